@@ -51,7 +51,7 @@ fn strategy() -> impl Strategy<Value = Case> {
         width,
         0usize..=70,
         any::<u16>(),
-        0u8..4,
+        0u8..8,
         any::<u64>(),
         proptest::collection::vec((any::<u8>(), raw16(), raw16(), raw16(), raw16()).prop_map(|(kind, a, b, c, d)| RawOp { kind, a, b, c, d }), 1..140),
     )
@@ -161,7 +161,10 @@ fn check(c: &Case, st: &mut Stats) -> Result<(), String> {
         col_valid: vec![true; w],
     };
     // initial fill through `set` with a generated density
-    let per_row = match c.density {
+    // (density & 3 = ones per row; density & 4 = additionally 1..=3 heavy columns set in most
+    // rows, as the LDPC/HDPC-adjacent columns of a real constraint matrix are: column lists far
+    // longer than the mean)
+    let per_row = match c.density & 3 {
         0 => 1,
         1 => 3,
         2 => (w / 8).max(2),
@@ -174,6 +177,19 @@ fn check(c: &Case, st: &mut Stats) -> Result<(), String> {
             world.model[r][col] = v;
             world.dense.set(r, col, oct(v));
             world.sparse.set(r, col, oct(v));
+        }
+    }
+    let heavy_cols = c.density & 4 != 0;
+    if heavy_cols {
+        for _ in 0..1 + rng.below(3) {
+            let col = rng.below(w as u64) as usize;
+            for r in 0..h {
+                if rng.below(8) != 0 {
+                    world.model[r][col] = Tri::One;
+                    world.dense.set(r, col, Octet::one());
+                    world.sparse.set(r, col, Octet::one());
+                }
+            }
         }
     }
     let mut k = Counters::default();
@@ -469,6 +485,7 @@ fn check(c: &Case, st: &mut Stats) -> Result<(), String> {
         }
     }
     st.evals(k.ops);
+    st.class_n("case with heavy columns in the initial fill", heavy_cols as u64);
     st.class_n("op: freeze", k.freezes as u64);
     st.class_n("op: freeze crossing a 64-column boundary of the dense tail", k.freeze_cross_word as u64);
     st.class_n("op: resize", k.resizes as u64);
@@ -561,7 +578,7 @@ fn signature(_: &Case, msg: &str) -> String {
 }
 
 pub fn run(ctx: &Ctx, rep: &mut Report) {
-    rep.rule = "model-based: generated shape (width 2..=260 weighted to 63..66, 127..140, 191..200; height = width + 0..=70; trailing dense hint 1..=width-1 weighted to just below the 64/128/192-column boundaries; initial fill through set with generated density) and 1..90 raw operation descriptors interpreted by the model into admissible operations of a three-phase protocol mirroring every precondition asserted in sparse_matrix.rs: construction (set, swap rows/columns, additions, queries), indexed (enable; swap rows; swap columns within the sparse part with a valid start-row hint; freeze the last sparse column; pivot elimination add(dest,src,0) when src has a single one in the sparse part and dest has it set; add(dest,src,first dense column); set in the dense part; count/iterate rows over the sparse part; ones of still-valid columns; packed sub-row and non-zero columns at the first dense column; get), un-indexed (disable; resize keeping width or dropping at least the dense tail, height >= width; unrestricted additions; set; queries). Oracle: a Vec<Vec<Tri>> with an undefined state (cells of dest left of start_col where src is non-zero after a partial addition); every query of BOTH implementations is compared with the model on defined cells, packed rows are unpacked by the harness, and all defined cells are scanned at the end. Non-trivial = sequence with a freeze that crosses a 64-column boundary of the dense tail, a resize, and a column swap after a row swap; distinct by (shape, op sequence).".into();
+    rep.rule = "model-based: generated shape (width 2..=260 weighted to 63..66, 127..140, 191..200; height = width + 0..=70; trailing dense hint 1..=width-1 weighted to just below the 64/128/192-column boundaries; initial fill through set with generated density, in half the cases plus 1..3 heavy columns set in 7/8 of the rows so that column lists far longer than the mean exist) and 1..90 raw operation descriptors interpreted by the model into admissible operations of a three-phase protocol mirroring every precondition asserted in sparse_matrix.rs: construction (set, swap rows/columns, additions, queries), indexed (enable; swap rows; swap columns within the sparse part with a valid start-row hint; freeze the last sparse column; pivot elimination add(dest,src,0) when src has a single one in the sparse part and dest has it set; add(dest,src,first dense column); set in the dense part; count/iterate rows over the sparse part; ones of still-valid columns; packed sub-row and non-zero columns at the first dense column; get), un-indexed (disable; resize keeping width or dropping at least the dense tail, height >= width; unrestricted additions; set; queries). Oracle: a Vec<Vec<Tri>> with an undefined state (cells of dest left of start_col where src is non-zero after a partial addition); every query of BOTH implementations is compared with the model on defined cells, packed rows are unpacked by the harness, and all defined cells are scanned at the end. Non-trivial = sequence with a freeze that crosses a 64-column boundary of the dense tail, a resize, and a column swap after a row swap; distinct by (shape, op sequence).".into();
     rep.assumptions.push("trailing dense hint >= 1 as in every caller (the solver passes P >= 10)".into());
     let n = ctx.tier.pick(200_000u64, 2_000_000);
     rep.absorb("model", run_sharded("C16", "model", ctx.seed, n, 32, strategy, check, to_json, signature));
@@ -584,7 +601,7 @@ pub fn fuzz_one(data: &[u8]) -> Result<(), String> {
     let extra_height = u.int_in_range(0..=70usize).unwrap_or(0);
     let pmax = (width - 1).max(1);
     let dense_hint = u.int_in_range(1..=pmax).unwrap_or(1);
-    let density = u.int_in_range(0..=3u8).unwrap_or(0);
+    let density = u.int_in_range(0..=7u8).unwrap_or(0);
     let fill_seed: u64 = u.arbitrary().unwrap_or(0);
     let mut ops = vec![];
     while !u.is_empty() && ops.len() < 200 {
